@@ -227,6 +227,8 @@ def exhaustive(tier, ctx):
     for j, s in enumerate(sig_shapes()):
         for rep in range(2 if tier == "quick" else 6):
             yield dict(s, wseed=1000 * rep + j)
+    for value in (1, "x", None):
+        yield {"concrete_instance": True, "value": value, "wseed": 0}
     # call shapes that the concrete call rejects: the symbolic call has to reject them as well
     for kind in ("fn", "method"):
         for arity in (1, 2, 3):
@@ -429,6 +431,28 @@ def run_sig(spec, ctx):
     return {"status": "ok", "nontrivial": True, "shape": shape, "obs": {"calls": len(want_calls), "rows": len(want_true)}}
 
 
+def run_concrete_instance(spec, ctx):
+    """a predicate called with plain values is an ordinary object: it can be copied and pickled, and it still gives the
+    truth value of its call; a field named like the first parameter of __new__ can be given by keyword"""
+    import copy
+    import pickle
+    from krrood.entity_query_language.predicate import HasType
+    C = ctx["counters"]
+    problems = []
+    original = HasType(spec["value"], int)
+    for how, clone in (("copy.copy", copy.copy), ("copy.deepcopy", copy.deepcopy), ("pickle", lambda o: pickle.loads(pickle.dumps(o)))):
+        try:
+            twin = clone(original)
+            if type(twin) is not HasType or twin() != original():
+                problems.append(f"{how} of a concrete predicate instance gives {twin!r}")
+        except Exception as e:
+            problems.append(f"{how} of a concrete predicate instance raised {type(e).__name__}: {e}"[:160])
+        C["concrete_instances_cloned"] += 1
+    if problems:
+        return {"status": "fail", "kind": "concrete-instance", "key": None, "detail": "; ".join(problems[:3])}
+    return {"status": "ok", "nontrivial": False, "shape": "concrete-instance"}
+
+
 def run(spec, ctx):
     import random
     from krrood.entity_query_language.entity import let, set_of, entity, and_, not_, for_all
@@ -438,6 +462,8 @@ def run(spec, ctx):
     C = ctx["counters"]
     if spec.get("invalid"):
         return run_invalid(spec, ctx)
+    if spec.get("concrete_instance"):
+        return run_concrete_instance(spec, ctx)
     if spec.get("sig"):
         return run_sig(spec, ctx)
     rng = random.Random(spec["wseed"])
